@@ -470,6 +470,42 @@ theorem tensorHs_intertwines (n1 n2 : Nat) (A : Mat Rat n1 n1) (B : Mat Rat n2 n
 /-- non-vacuity of `tensorHs_intertwines` (`hdim`): a qutrit gate on subsystem 5 and a qubit gate on subsystem 2 -/
 example : prodL (([(5, 3), (2, 2)] : List ESys).map fun x => sq x.2) = 9 * 4 := by decide
 
+/-- helper: the mixed-product property for the run-time-sized Kronecker matrix on lists -/
+theorem kron_mulVecL (n1 n2 : Nat) (A : Mat Rat n1 n1) (B : Mat Rat n2 n2) (x1 x2 : List Rat)
+    (h1 : x1.length = n1) (h2 : x2.length = n2) :
+    (⟨n1 * n2, n1 * n2, kron A B⟩ : DMat Rat).mulVecL (kronLG x1 x2)
+      = .ok (kronLG (A.mulVec (ofList x1 n1 h1)).toList (B.mulVec (ofList x2 n2 h2)).toList) := by
+  have hin : kronLG x1 x2 = (kronVec (ofList x1 n1 h1) (ofList x2 n2 h2)).toList := by
+    rw [kronVec_toList, ofList_toList, ofList_toList]
+  rw [hin, mulVecL_of_length _ _ (by simp)]
+  rw [ofList_vec]
+  show Except.ok ((kron A B).mulVec _).toList = _
+  rw [kron_mulVec, kronVec_toList]
+
+/-- C07 "a product gate … acts factor-wise", on the **executed** `_tensor_product_hs_hs`, whatever the order of the
+arguments: for the product `R` of two gates `A`, `B` (on any number of subsystems each) and a product input
+`x₁ ⊗ x₂`, `R` maps the re-ordered image `P·(x₁⊗x₂)` to the re-ordered image `P·((A x₁)⊗(B x₂))` of the factor-wise
+outputs, `P` being `calc_permutation_matrix` of the argument order (which `calcPerm_sorts` identifies as the
+rearrangement into ascending subsystem name). -/
+theorem tensorHs_product_action (n1 n2 : Nat) (A : Mat Rat n1 n1) (B : Mat Rat n2 n2) (e : List ESys)
+    (hdim : prodL (e.map fun x => sq x.2) = n1 * n2) (x1 x2 : List Rat) (h1 : x1.length = n1) (h2 : x2.length = n2) :
+    ∃ (P R : DMat Rat) (y : List Rat), ratPerm (e.map (·.1)) (e.map fun x => sq x.2) = .ok P ∧
+      tensorHsWith (fun A B => kron A B) ⟨n1, n1, A⟩ ⟨n2, n2, B⟩ e = .ok R ∧
+      P.mulVecL (kronLG x1 x2) = .ok y ∧
+      R.mulVecL y = P.mulVecL (kronLG (A.mulVec (ofList x1 n1 h1)).toList (B.mulVec (ofList x2 n2 h2)).toList) := by
+  obtain ⟨P, R, hP, hR, hint⟩ := tensorHs_intertwines n1 n2 A B e hdim
+  have hc := ratPerm_cols _ _ P hP
+  rw [hdim] at hc
+  have hlen : (kronLG x1 x2).length = P.c := by rw [kronLG_length, h1, h2, hc]
+  have hy := mulVecL_of_length P (kronLG x1 x2) hlen
+  exact ⟨P, R, _, hP, hR, hy, hint _ _ _ hy (kron_mulVecL n1 n2 A B x1 x2 h1 h2)⟩
+
+/-- non-vacuity of `tensorHs_product_action`: a qutrit gate on subsystem 5 and a qubit gate on subsystem 2, inputs of
+lengths 9 and 4 -/
+example : prodL (([(5, 3), (2, 2)] : List ESys).map fun x => sq x.2) = 9 * 4 ∧
+    (List.replicate 9 (1 : Rat)).length = 9 ∧ ([1, 0, 0, 1] : List Rat).length = 4 := by decide
+
+
 /-! ### the measurement-process layout (open defect D7b) -/
 
 /-- HS matrices of a 1-dimensional system (1×1) — enough to exhibit an outcome layout -/
